@@ -72,4 +72,9 @@ theorem agent_yubiagent_agent_pinned : Gen.SnapYubi.agent_yubiagent_agent = ([
   (c!"type", [c!"YubiAgent interface { shimagent.ShimAgent ListSlots() (slots []string, err error) ReadSlot(slot string) (cert *x509.Certificate, err error) AttestSlot(slot string) (cert *x509.Certificate, err error) AddSmartcardKey(readerId string, pin []byte, lifetime time.Duration, confirmBeforeUse bool) error RemoveSmartcardKey(readerId string, pin []byte) error }"])
 ] : List (Str × List Str)) := rfl
 
+theorem agent_yubiagent_server_notwin_pinned : Gen.SnapYubi.agent_yubiagent_server_notwin = ([
+  (c!"const", [c!"pivTool = \"yubico-piv-tool\""]),
+  (c!"getPivToolPath func() (string, error)", [c!"return exec.LookPath(pivTool)"])
+] : List (Str × List Str)) := rfl
+
 end Ysshra.Bridge.SnapYubi
